@@ -8,6 +8,7 @@ package nut12
 //@   tags C10
 //@   safety C06 C10
 //@   ensures @e [C10] r3 == nil ==> r0 != nil && r1 != nil && hexok(dleq.E) && hexok(dleq.S) && sc.of(r0.Key) == sc.frombytes(hexdec(dleq.E)) && sc.of(r1.Key) == sc.frombytes(hexdec(dleq.S))
+//@   ensures @ok [C10] r3 == nil <==> hexok(dleq.E) && hexok(dleq.S) && (dleq.R == "" || hexok(dleq.R))
 //@   ensures @r [C10] r3 == nil ==> (dleq.R == "" <==> r2 == nil) && (r2 != nil ==> hexok(dleq.R) && sc.of(r2.Key) == sc.frombytes(hexdec(dleq.R)))
 
 // A proof carrying (e, s, r) is checked by re-blinding: B' = Y + rG, C' = C + rA.
@@ -23,6 +24,9 @@ package nut12
 //@   tags C10
 //@   safety C06 C10
 //@   requires A != nil
+// accepts exactly when everything parses and e == hash(sG - eA, sB' - eC', A, C'); with the lemmas
+// dleq.complete / dleq.complete.wire this is "accepts what signBlindedMessages emits under A = kG"
+//@   ensures @iff [C10] result <==> hexok(dleq.E) && hexok(dleq.S) && (dleq.R == "" || hexok(dleq.R)) && hexok(B_str) && pt.parseok(hexdec(B_str)) && hexok(C_str) && pt.parseok(hexdec(C_str)) && sc.ser(sc.frombytes(hexdec(dleq.E))) == hashe4(padd(smul(sc.frombytes(hexdec(dleq.S)), pt.G), smul(sneg(sc.frombytes(hexdec(dleq.E))), pk.pt(*A))), padd(smul(sc.frombytes(hexdec(dleq.S)), pt.parse(hexdec(B_str))), smul(sneg(sc.frombytes(hexdec(dleq.E))), pt.parse(hexdec(C_str)))), pk.pt(*A), pt.parse(hexdec(C_str)))
 //@   calls crypto.VerifyDLEQ asserts @parsed [C10] sc.of(e.Key) == sc.frombytes(hexdec(dleq.E)) && sc.of(s.Key) == sc.frombytes(hexdec(dleq.S)) && hexok(B_str) && pk.pt(*B_) == pt.parse(hexdec(B_str)) && hexok(C_str) && pk.pt(*C_) == pt.parse(hexdec(C_str)) && pk.pt(*A) == old(pk.pt(*A))
 
 // Every proof that carries a DLEQ must verify under the key of ITS amount; an
